@@ -169,7 +169,7 @@ def main(argv=None):
         body = {"property": prop, "key": key, "what": wit["what"] if wit else key, "case": wit["case"] if wit else None,
                 "witness": wit["witness"] if wit else None, "seed": seed, "tier": tier}
         sha = hashlib.sha1(json.dumps(body, sort_keys=True).encode()).hexdigest()[:12]
-        rdir = os.path.join(VERIF, "replays", prop)
+        rdir = os.path.join(VERIF, "replays" if bootstrap.REPO == "/repo" else os.path.join(".scratch", "mutant-replays"), prop)
         os.makedirs(rdir, exist_ok=True)
         rpath = os.path.join(rdir, f"{sha}.json")
         with open(rpath, "w") as fh:
@@ -239,8 +239,10 @@ def write_evidence(mod, prop, tier, seed, R, wall, n_viol, known_seen, inconclus
         "wall_s": round(wall, 3),
         "violations": int(n_viol),
     }
-    os.makedirs(os.path.join(VERIF, "evidence"), exist_ok=True)
-    path = os.path.join(VERIF, "evidence", f"{prop}.json")
+    # runs against a scratch copy (mutant self-tests, VERIF_REPO set) never touch the committed evidence
+    evdir = os.path.join(VERIF, "evidence") if bootstrap.REPO == "/repo" else os.path.join(VERIF, ".scratch", "mutant-evidence")
+    os.makedirs(evdir, exist_ok=True)
+    path = os.path.join(evdir, f"{prop}.json")
     tmp = path + f".tmp{os.getpid()}"
     with open(tmp, "w") as fh:
         json.dump(jsonable(ev), fh, indent=1, sort_keys=True)
